@@ -463,6 +463,76 @@ B=[
 	}
 	return nil
 }'''),
+ ('B53-client-stream-loop-restructured','api/rest/client/request.go',
+  '''	dec := json.NewDecoder(resp.Body)
+	for {
+		err := handler(dec)
+		if err == io.EOF {
+			// we need to check trailers
+			break
+		}
+		if err != nil {
+			logger.Error(err)
+			return err
+		}
+	}
+
+	errTrailer := resp.Trailer.Get("X-Stream-Error")
+	if errTrailer != "" {''','''	dec := json.NewDecoder(resp.Body)
+	var err error
+	for err == nil {
+		err = handler(dec)
+	}
+	if err != io.EOF {
+		logger.Error(err)
+		return err
+	}
+
+	// the body is drained: trailers are available now
+	if errTrailer := resp.Trailer.Get("X-Stream-Error"); errTrailer != "" {'''),
+ ('B55-crdt-parsedurations-if-form','consensus/crdt/config.go',
+  '''	err := config.ParseDurations(
+		"crdt",
+		&config.DurationOpt{Duration: jcfg.RebroadcastInterval, Dst: &cfg.RebroadcastInterval, Name: "rebroadcast_interval"},
+		&config.DurationOpt{Duration: jcfg.Batching.MaxBatchAge, Dst: &cfg.Batching.MaxBatchAge, Name: "max_batch_age"},
+	)
+	if err != nil {
+		return err
+	}
+	return cfg.Validate()''','''	if err := config.ParseDurations(
+		"crdt",
+		&config.DurationOpt{Duration: jcfg.Batching.MaxBatchAge, Dst: &cfg.Batching.MaxBatchAge, Name: "max_batch_age"},
+		&config.DurationOpt{Duration: jcfg.RebroadcastInterval, Dst: &cfg.RebroadcastInterval, Name: "rebroadcast_interval"},
+	); err != nil {
+		return err
+	}
+	return cfg.Validate()'''),
+ ('B56-cleanupraft-checked-removeall','consensus/raft/raft.go',
+  '''		logger.Infof("cleaning empty Raft data folder (%s)", dataFolder)
+		os.RemoveAll(dataFolder)
+		return nil''','''		logger.Infof("cleaning empty Raft data folder (%s)", dataFolder)
+		return os.RemoveAll(dataFolder)'''),
+ ('B57-checkpeers-latest-form','monitor/metrics/checker.go',
+  '''			if len(mc.metrics.PeerMetricAll(name, peer)) == 0 {
+				continue
+			}
+			if mc.FailedMetric(name, peer) {''','''			if mc.metrics.PeerLatest(name, peer) == nil {
+				continue
+			}
+			if failed := mc.FailedMetric(name, peer); failed {'''),
+ ('B59-trustedpeers-reset-nil','consensus/crdt/config.go',
+  '''	cfg.TrustAll = false
+	cfg.TrustedPeers = []peer.ID{}
+
+	for _, p := range jcfg.TrustedPeers {''','''	cfg.TrustAll = false
+	cfg.TrustedPeers = make([]peer.ID, 0, len(jcfg.TrustedPeers))
+
+	for _, p := range jcfg.TrustedPeers {'''),
+ ('B60-batchingstate-commit-local','state/dsstate/datastore.go',
+  '''	defer span.End()
+	return bst.batch.Commit()''','''	defer span.End()
+	err := bst.batch.Commit()
+	return err'''),
 ]
 os.makedirs(OUT,exist_ok=True)
 n=0
